@@ -5,6 +5,7 @@ import (
 	"fmt"
 	"strings"
 	"testing"
+	"time"
 
 	erpc "github.com/henrylee2cn/erpc/v6"
 	"github.com/henrylee2cn/erpc/v6/socket"
@@ -360,6 +361,8 @@ func c20CheckClean(e *world.Env, ctxSwap, sessSwap int, where string) {
 	}
 }
 
+type c20CtxKey struct{}
+
 type Dirty struct{ erpc.CallCtx }
 
 // Mess handles a call, checks that its context is pristine and then dirties everything it can reach.
@@ -390,6 +393,13 @@ func (d *Dirty) Mess(arg *world.Payload) (*world.Payload, *erpc.Status) {
 	}
 	if _, ok := d.Swap().Load("handler-left-this"); ok {
 		e.Fail("C20/context-swap-not-fresh", "handler for %s finds a swap entry of an earlier handler", arg.Tag)
+	}
+	// the session has no context age: the handler's context.Context is the default one - no deadline, not
+	// cancelled, none of the values some caller in this process attached to its own call
+	if cx := d.Context(); cx != nil {
+		if _, has := cx.Deadline(); has || cx.Err() != nil || cx.Value(c20CtxKey{}) != nil {
+			e.Fail("C20/context-not-fresh", "handler for %s starts with a context.Context of an earlier user (deadline=%v err=%v value=%v)", arg.Tag, has, cx.Err(), cx.Value(c20CtxKey{}))
+		}
 	}
 	// dirty
 	g := e.Gen
@@ -461,6 +471,12 @@ func runC20System(t *testing.T, seed uint64, m *Mask, opt world.Options, r *simr
 			st := []erpc.MessageSetting{erpc.WithBodyCodec('j'), erpc.WithAddMeta("Mk", c.tag)}
 			if e.Gen.Chance(0.3) {
 				st = append(st, erpc.WithXferPipe(world.FGzip1))
+			}
+			if e.Gen.Chance(0.3) {
+				// the caller's own context: a value, a deadline far away, sometimes already cancelled after the call
+				cx, cancel := context.WithTimeout(context.WithValue(context.Background(), c20CtxKey{}, "of-call-"+c.tag), time.Hour)
+				st = append(st, erpc.WithContext(cx))
+				defer cancel()
 			}
 			cmd := sessions[i%len(sessions)].Call("/dirty/mess", &world.Payload{Tag: c.tag, Data: "d"}, res, st...)
 			simrt.Yield()
